@@ -541,3 +541,80 @@ def rt_c08(rnd, tier):
                 pass          # refused loudly later: allowed by the property
     return {"cases": cases, "bound": "9 schemes x every config field x boundary/out-of-range values + single-field deletions, DB [3,1,5]",
             "violations": viol}
+
+
+def _cipher_values(name, edb):
+    """byte strings of the index that are produced by the randomised cipher (or are random fillers of the same tables)"""
+    out = []
+    if name in ("CJJ14.PiBas", "CJJ14.PiPack"):
+        out += list(edb.D.values())
+    elif name in ("CJJ14.PiPtr", "CJJ14.Pi2Lev"):
+        out += list(edb.D.values()) + [x for x in edb.A if x is not None]
+    elif name == "CT14.Pi":
+        for h in edb.HT_list:
+            out += list(h.values())
+    elif name == "ANSS16.Scheme3":
+        out += list(edb.HT_S.values())
+        for h in edb.HT_L_list:
+            out += list(h.values())
+    elif name == "CGKO06.SSE1":
+        out += list(edb.A)
+    elif name == "DP17.Pi":
+        for lst in edb.A_dict.values():
+            out += list(lst)
+    return out
+
+
+def _blocks(values):
+    out = []
+    for v in values:
+        out += [v[i:i + 16] for i in range(0, len(v) - len(v) % 16, 16)]
+    return out
+
+
+def rt_c04(rnd, tier):
+    """C04: no keyword / identifier as a substring of the serialized index or tokens; ciphertext blocks never repeat inside
+    one index nor between two indexes of the same (K, DB)"""
+    viol, cases = [], 0
+    for st in setups(tier):
+        profs = [[3, 4, 5], [16] * 16, [1] * 7]
+        if st.name == "CJJ14.Pi2Lev" and st.cfg["param_B"] * st.cfg["param_b_prime"] < 40:
+            profs.append([st.cfg["param_B"] * st.cfg["param_b_prime"] + 3, 2])
+        for prof in profs:
+            if not st.fits(prof) or (st.name in ("CGKO06.SSE1", "CGKO06.SSE2", "DP17.Pi") and sum(prof) > 60 and tier != "thorough"):
+                continue
+            db = st.make_db(rnd, prof)
+            # one identifier shared by every keyword
+            shared = next(iter(db.values()))[0]
+            for w in db:
+                if shared not in db[w]:
+                    db[w][-1] = shared
+            try:
+                sch, cfg = st.scheme(db)
+                key = sch.KeyGen()
+                e1 = sch.EDBSetup(key, copy.deepcopy(db))
+                e2 = sch.EDBSetup(key, copy.deepcopy(db))
+            except Exception:
+                continue
+            cases += 1
+            ser = e1.serialize()
+            toks = [sch.TokenGen(key, w).serialize() for w in list(db)[:5]]
+            for w in db:
+                if len(w) >= 6 and (w in ser or any(w in t for t in toks)):
+                    _viol(viol, "%s: a stored keyword occurs in the serialized index or a token" % st.name, scheme=st.name, profile=prof)
+                    break
+            if st.name != "CGKO06.SSE2":
+                hit = sum(1 for ids in db.values() for i in ids if len(i) >= 8 and i in ser)
+                if hit:
+                    _viol(viol, "%s: %d stored identifier(s) readable in EDB.serialize() (list lengths %s)" % (st.name, hit, prof),
+                          scheme=st.name, profile=prof, config={k: v for k, v in st.cfg.items() if k.startswith("param")})
+                b1, b2 = _blocks(_cipher_values(st.name, e1)), _blocks(_cipher_values(st.name, e2))
+                if len(set(b1)) != len(b1):
+                    _viol(viol, "%s: a ciphertext block occurs twice inside one index (list lengths %s)" % (st.name, prof),
+                          scheme=st.name, profile=prof)
+                common = set(b1) & set(b2)
+                if common:
+                    _viol(viol, "%s: %d of %d ciphertext blocks are identical in two encryptions of the same (K, DB) (list lengths %s)" % (
+                        st.name, len(common), len(set(b1)), prof), scheme=st.name, profile=prof)
+    return {"cases": cases, "bound": "9 schemes x 2 configurations x 3-4 databases (incl. N = 256 and one identifier under every keyword)",
+            "violations": viol}
